@@ -87,6 +87,9 @@ type ChipSpec struct {
 	// extra inputs that exist on the chip but are not used by the configuration
 	ExtraFans  []int `json:"extraFans,omitempty"`
 	ExtraTemps []int `json:"extraTemps,omitempty"`
+	// BadTemps: those of the extra temperature inputs that exist but cannot be read (an empty attribute, as a
+	// driver shows for a sensor that is not wired); they are inputs of the chip like any other
+	BadTemps []int `json:"badTemps,omitempty"`
 }
 
 type TempProg struct {
